@@ -21,10 +21,18 @@ def data_of(v):
     return v[0] if has_ctx(v) else v
 
 
+NONE_D = -999    # spec/FlowSem.tla NoneD: the data value None
+
+
+def num(d):
+    return NONE_D if d is None else d
+
+
 def project(v):
     """Real flow value -> {d, c (sorted marks), h}."""
     h = has_ctx(v)
     d, ctx = (v[0], v[1]) if h else (v, {})
+    d = num(d)
     marks = []
     for k in ctx:
         if k == "count":
@@ -59,21 +67,27 @@ class Last(object):
 
 def _map_callable(f):
     def inc(v):
-        return (v[0] + 1, v[1]) if has_ctx(v) else v + 1
+        return (num(v[0]) + 1, v[1]) if has_ctx(v) else num(v) + 1
 
     def dbl(v):
-        return (v[0] * 2, v[1]) if has_ctx(v) else v * 2
+        return (num(v[0]) * 2, v[1]) if has_ctx(v) else num(v) * 2
+
+    def nul(v):
+        """None for odd bare data (a function called for its side effect, dict.get, re.match ...)."""
+        if has_ctx(v) or num(v) % 2 == 0:
+            return v
+        return None
 
     def tag(v):
         d, c = (v[0], v[1]) if has_ctx(v) else (v, {})
         c2 = dict(c)
         c2["t"] = 1
         return (d, c2)
-    return {"inc": inc, "dbl": dbl, "tag": tag}[f]
+    return {"inc": inc, "dbl": dbl, "tag": tag, "nul": nul}[f]
 
 
 def _pred(p):
-    return {"even": lambda v: data_of(v) % 2 == 0, "lt2": lambda v: data_of(v) < 2,
+    return {"even": lambda v: num(data_of(v)) % 2 == 0, "lt2": lambda v: num(data_of(v)) < 2,
             "none": lambda v: False, "all": lambda v: True}[p]
 
 
@@ -96,7 +110,7 @@ def build_stage(st, pairs=True, use_context_el=False):
     t = st["t"]
     if t == "map":
         f = st["f"]
-        if f in ("inc", "dbl", "tag"):
+        if f in ("inc", "dbl", "tag", "nul"):
             return _map_callable(f)
         if f == "id":
             return lena.context.Context() if (pairs and use_context_el) else lena.flow.Print(transform=lambda x: "")
